@@ -46,6 +46,15 @@ package dyncrc16
 //@   ensures [state] r == uint16(*c)
 //@   assigns nothing
 
+//@@ Sum appends the current sum, most significant byte first, and leaves the state alone
+//@ func (c *crc16) Sum(in []byte) (r []byte)
+//@   props C14
+//@   ensures [len] len(r) == len(in)+2
+//@   ensures [sum] r[len(in)] == byte(uint16(*c)>>8) && r[len(in)+1] == byte(uint16(*c))
+//@   ensures [prefix] forall k in 0..len(in) :: r[k] == in[k]
+//@   ensures [state] uint16(*c) == old(uint16(*c))
+//@   assigns nothing
+
 //@ func (c *crc16) Reset()
 //@   props C14
 //@   ensures [zero] uint16(*c) == 0
